@@ -33,6 +33,17 @@ pub fn explore(ex: &Ex) {
     bodies.push(gen::arr(vec![]));
     bodies.push(gen::map(vec![]));
     bodies.push(gen::b(b"\x84\x40\xa0\xf6\x40"));
+    // an opaque header value that itself carries one of the registered tags (say, an embedded
+    // tagged COSE message): only the tag on the structure itself is the structure's tag
+    for t in [16u64, 17, 18, 96, 97, 98] {
+        let un = gen::map(vec![(gen::u(99), Item::tag(t, gen::arr(vec![gen::b(b""), gen::map(vec![]), crate::refcbor::NULL, gen::b(b"")])))]);
+        let rec = gen::arr(vec![gen::b(b""), gen::map(vec![]), gen::b(b"k")]);
+        bodies.push(gen::arr(vec![gen::b(b""), un.clone(), crate::refcbor::NULL, gen::b(b"")]));
+        bodies.push(gen::arr(vec![gen::b(b""), un.clone(), crate::refcbor::NULL]));
+        bodies.push(gen::arr(vec![gen::b(b""), un.clone(), crate::refcbor::NULL, gen::arr(vec![gen::sig_valid()])]));
+        bodies.push(gen::arr(vec![gen::b(b""), un.clone(), gen::b(b"c"), gen::arr(vec![rec.clone()])]));
+        bodies.push(gen::arr(vec![gen::b(b""), un.clone(), crate::refcbor::NULL, gen::b(b""), gen::arr(vec![rec.clone()])]));
+    }
     if ex.scale == Scale::Thorough {
         for arity in [3usize, 4, 5] {
             let tiny = gen::msg_slots_tiny();
